@@ -12,6 +12,16 @@ use std::time::Instant;
 
 pub const VERIF_DIR: &str = "/verif";
 
+/// where evidence and replay files go: /verif/evidence and /verif/replays, except for
+/// sensitivity runs against a scratch copy of the repository (NFV_OUT_DIR set by verif.sh when
+/// NFV_REPO is), which must not overwrite the evidence of the real tree
+pub fn out_dir(kind: &str) -> String {
+    match std::env::var("NFV_OUT_DIR") {
+        Ok(d) if !d.is_empty() => format!("{}/{}", d, kind),
+        _ => format!("{}/{}", VERIF_DIR, kind),
+    }
+}
+
 // ---------------------------------------------------------------------------------------
 // cases
 // ---------------------------------------------------------------------------------------
@@ -457,8 +467,8 @@ impl Ctx {
     fn set_harness(&self, msg: String, case: &Case) {
         let mut f = self.harness_err.lock().unwrap();
         if f.is_none() {
-            let path = format!("{}/replays/{}-harness.json", VERIF_DIR, self.id);
-            let _ = std::fs::create_dir_all(format!("{}/replays", VERIF_DIR));
+            let path = format!("{}/{}-harness.json", out_dir("replays"), self.id);
+            let _ = std::fs::create_dir_all(out_dir("replays"));
             let _ = std::fs::write(&path, serde_json::to_string_pretty(&case.to_json(usize::MAX)).unwrap());
             *f = Some(format!("{} (case saved to {})", msg, path));
         }
@@ -648,7 +658,7 @@ impl Ctx {
         let harness = self.harness_err.lock().unwrap();
         let mut replay_path = None;
         if let Some(f) = failure.as_ref() {
-            let dir = format!("{}/replays", VERIF_DIR);
+            let dir = out_dir("replays");
             let _ = std::fs::create_dir_all(&dir);
             let path = format!("{}/{}-{:016x}.json", dir, self.id, f.case.digest());
             let mut j = f.case.to_json(usize::MAX);
@@ -681,9 +691,9 @@ impl Ctx {
             "violations": if failure.is_some() { 1 } else { 0 },
             "inconclusive": harness.clone(),
         });
-        let _ = std::fs::create_dir_all(format!("{}/evidence", VERIF_DIR));
+        let _ = std::fs::create_dir_all(out_dir("evidence"));
         let _ = std::fs::write(
-            format!("{}/evidence/{}.json", VERIF_DIR, self.id),
+            format!("{}/{}.json", out_dir("evidence"), self.id),
             serde_json::to_string_pretty(&ev).unwrap(),
         );
         if let Some(f) = failure.as_ref() {
